@@ -34,6 +34,10 @@ def oracle(case, out):
                     markers = any(s["inst"] == inst and s["kind"] != "A" for s in samples_b)
                     viol.append({"what": f"op {i}: KEEP_LAST({q['depth']}) reader with max_samples_per_instance={mspi} rejected a sample for samples-per-instance",
                                  "at": i, "cause": "marker-samples-occupy-slots" if markers else None})
+            if o.startswith("rejected") and o.endswith("samples") and q["depth"] is not None:
+                if sum(1 for s in samples_b if s["inst"] == inst and s["kind"] == "A") >= q["depth"]:
+                    viol.append({"what": f"op {i}: KEEP_LAST({q['depth']}) reader rejected a sample for max_samples={q['ms']} although the sample only replaces the oldest one of its instance",
+                                 "at": i})
             if o == "added" and kind == "A":
                 lst = expected.setdefault(inst, [])
                 if q["depth"] is not None and len(lst) >= q["depth"]:
